@@ -54,6 +54,21 @@ CLAIMED = {
         note="Trusted: Lean kernel (+propext, Classical.choice, Quot.sound), Model/C13-C15 (validated), maxValence specification data; RDKit sanitisation of both sides is exercised by the harness only. No native_decide.",
         technique="Lean 4 proof (general theorems) + exhaustive enumeration by compiled model and implementation for the shipped Diels-Alder shape clause + correspondence check",
         design_ref="6/C15"),
+    "C06": dict(
+        text="Lean 4 theorems C06.history_independent (cache invariant, induction over any list of earlier queries), view_env_independent, env_independent(_ofKey) (for an injective key the built hierarchy incl. the order of roots and of every children list does not depend on set-iteration order nor on the order of the input list), deterministic, input_untouched, hash_dependent_witness_unrepaired (decide: why the repair was needed); the runtime part is exercised: fresh interpreter processes with PYTHONHASHSEED in {0..4, random}, every query asked twice on a shared object and once on a fresh one, input graph snapshotted (nodes, attributes, adjacency order) around every real call, full ordered tree compared across seeds and with the model.",
+        note="Partly a property of the runtime (string-hash randomisation, set iteration by address, aliasing): the logic is modelled and proved, the runtime is exercised, not modelled. The query algorithm enters the C06 model as a parameter reading only the tree view (C05's subject). 'key injective on the list' is a hypothesis (pattern strings distinct). Trusted: Lean kernel (+propext, Classical.choice, Quot.sound), Model/C06+C07 (validated).",
+        technique="Lean 4 proof (cache invariant over histories; order-independence of sorted insertion) + multi-process correspondence check across hash seeds",
+        design_ref="6/C06"),
+    "C07": dict(
+        text="Lean 4 theorems C07.hasse (for any list with a transitive relation sub that is key-monotone: the model of build_config_tree_from_list produces exactly the covering pairs as links, exactly the minimal items as roots, ancestor <-> sub, no item its own ancestor - for every set-iteration order), permutation_invariant, key_strict (a non-invertible embedding strictly increases (non-wildcard count, node count, edge count) lexicographically, on abstract labelled graphs), default_instance (decide +kernel: the hypotheses hold for the default list regenerated from the source, the matcher model reproduces the code's 31x31 subgroup table and equals the true embedding order on it), specCheck_sound; tree links/roots from fresh interpreters under several hash seeds and list permutations compared with the model and with the covering relation of the true embedding order.",
+        note="key_strict is proved on an abstract graph type; its instantiation to the concrete Graph data is kernel-decided for the default list and tested per generated list (hypsOk). Lists with cyclic patterns inherit the matcher defect (known finding K2b, decided per case with an embedding oracle). Domain: lists of connected patterns without mutually embeddable entries, no anti-patterns in generated lists. Trusted: Lean kernel (+propext, Classical.choice, Quot.sound), Model/C07 + shared matcher model (validated), gen_tables_c07.py.",
+        technique="Lean 4 proof (invariant over the sorted prefix: the DAG is the Hasse diagram of the inserted prefix; decide +kernel on the regenerated default table) + multi-process correspondence check",
+        design_ref="6/C07"),
+    "C08": dict(
+        text="Lean 4 theorems C08.permute_exact (a in permute pat str <-> Admissible, full strength incl. wildcard, case folding and can_map_to_nothing dummies), permute_nodup, mem_arrangements(_general), arrangements_nodup, mem_dedup/dedup_nodup, count_dummies, structure_wildcard_never_matches, matrix_characterisation, admissible_iff, specCheck_sound/complete; the order-faithful model of permute is compared with the implementation exhaustively on small alphabets (149k cases quick, 2.0M thorough) plus random longer lists; the proved-sound-and-complete executable spec is applied to every implementation answer; caller lists snapshotted; MappingMatrix.is_mapping compared incl. multi-letter symbols.",
+        note="Trusted: Lean kernel (+propext, Classical.choice, Quot.sound), Model/Permutation.lean as model of itertools.permutations order / str.lower (ASCII) / substring test (validated). The number of wildcard dummies is specified as the padding loop states it (depends on constructor order).",
+        technique="Lean 4 proof (characterisation of k-arrangements, de-duplication and the padding loop) + exhaustive-on-small-alphabets model/implementation correspondence check",
+        design_ref="6/C08"),
     "C09": dict(
         text="Lean 4 theorems C09.its_exact (Dom G -> Dom H -> abstract view of get_its = itsSpec, a specification on atom-map numbers only), getIts_closed, renumbering_invariant (any injective id renaming / reordering / edge orientation of either side), no_ghost_nodes, one_sided_atoms_contribute_nothing, specCheck_iff/sound, and decide-refutations of the two unrepaired variants; model of get_its (eta dicts as association lists, both node and both edge loops with their guards) compared with the implementation (also through ITS.from_smiles) on every run; proved-sound executable spec applied to every implementation output.",
         note="Trusted: Lean kernel (+propext, Classical.choice, Quot.sound), Model/C09.lean as model of the Python (networkx/dict semantics as ordered lists; validated by differential testing), RDKit parsing inside ITS.from_smiles taken as given. Domain Dom: distinct ids, present map numbers >= 1 and pairwise distinct, simple graph, bond orders != 0 (map number 0 / negatives / duplicates are generated but out of domain).",
